@@ -84,12 +84,10 @@ func checkTOCImage(r *vf.Run, c caseSpec, img *imageSrc, e *storeEnv, timg *imag
 					rp(lname, map[string]any{"layer_toc_digest_annotation": ann, "sha256_of_mapped_toc_json": got}))
 				ok = false
 			}
-			if err := repoVerifies(cl.blob, ann, tb); err != nil {
-				r.Violate("toc-image:mapped-toc-rejected-by-VerifyTOC:"+c.Kind, "estargz.Open+VerifyTOC reject the layer with the TOC blob the TOC image maps it to: "+errClass(err),
+			if err := repoMounts(r, c, img.Layers[cl.j], cl.blob, ann, tb, d); err != nil {
+				r.Violate("toc-image:mapped-toc-does-not-mount-and-verify:"+c.Kind, "the snapshotter's readers do not mount and verify the layer with the TOC blob the TOC image maps it to: "+errClass(err),
 					rp(lname, map[string]any{"layer_toc_digest_annotation": ann}))
 				ok = false
-			} else {
-				r.Count("blobs_accepted_by_Open_VerifyTOC", 1)
 			}
 			toc, err := parseTOC(js)
 			if err != nil {
@@ -130,7 +128,7 @@ func directStage(r *vf.Run) {
 		"",
 	}
 	for ki, kind := range allKinds {
-		c := genCase(r.RNG(2, uint64(ki)), 100000+ki, 1)
+		c := genCase(r.RNG(2, uint64(ki)), 100000+ki, 1, true)
 		c.Kind = kind
 		c.Index, c.Retry, c.Labels = false, false, true
 		c.Layers = c.Layers[:1]
